@@ -379,6 +379,17 @@ CanFail == fails < MaxFail
 WD(wrap) == wrap \in {"wd", "both"}       \* through WithoutDealloc
 WS(wrap) == wrap \in {"ws", "both"}       \* through WithoutShrink
 
+\* growable vectors (BumpVec<T, A>, A a shared handle possibly wrapped): their buffer is a live block that carries the
+\* element size, the length and the wrapper; a vector without buffer (capacity 0) has addr = 0, sz = 0
+IsVec(b) == "vlen" \in DOMAIN b
+VecIds == {i \in DOMAIN blocks : IsVec(blocks[i])}
+FrameLive == IF Len(frames) = 0 THEN {} ELSE frames[Len(frames)].live
+\* a vector borrows the handle it was created from (shared): while a vector created in the current frame is alive the
+\* handle cannot be borrowed exclusively (scoped, aligned, exclusive-borrow collections, reset ...) and its frame cannot end
+NoVecsHere == VecIds \subseteq FrameLive
+OwnVec(id) == id \in VecIds /\ id \notin FrameLive
+PlainBlock(id) == id \in DOMAIN blocks /\ ~IsVec(blocks[id])
+
 \* ---- allocate / allocate_zeroed -----------------------------------------------------------------
 \* fam / n: the value-level entry point family that carries the request ("" = the allocator interface), see ValueLayout
 AllocG(l, zeroed, fail, fam, n) ==
@@ -422,7 +433,7 @@ TwFams == { [name |-> "u64_u64",   rsz |-> 16, ral |-> 8,  off |-> 8,  tsz |-> 8
 
 AllocTryWith(tw, isOk, isMut, inner, fail) ==
     /\ Active /\ Free /\ Cardinality(LiveIds) + 1 < MaxBlocks
-    /\ isMut => ~inner                      \* with &mut access the closure cannot reach the allocator
+    /\ isMut => (~inner /\ NoVecsHere)                      \* with &mut access the closure cannot reach the allocator
     /\ fail => (CanFail /\ NeedsBase(chunks, cur, tw.rsz, tw.ral, ma))
     /\ LET cp == Checkpoint
            \* non-mut: a real allocation; mut: a prepared one (same address computation, the position does not move yet)
@@ -464,7 +475,7 @@ AllocTryWith(tw, isOk, isMut, inner, fail) ==
 
 \* ---- deallocate ---------------------------------------------------------------------------------
 Dealloc(id, wrap) ==
-    /\ Active /\ Free /\ id \in LiveIds
+    /\ Active /\ Free /\ PlainBlock(id)
     /\ LET b == blocks[id]
            reclaims == ~WD(wrap) /\ cfg.dealloc /\ IsLast(chunks, cur, b.addr, b.sz)
        IN \* C13 (design level): the most recent allocation of a size that is a multiple of the minimum alignment is reclaimed;
@@ -484,7 +495,7 @@ Dealloc(id, wrap) ==
 
 \* ---- grow / grow_zeroed -------------------------------------------------------------------------
 Grow(id, l, zeroed, wrap, fail) ==
-    /\ Active /\ Free /\ id \in LiveIds
+    /\ Active /\ Free /\ PlainBlock(id)
     /\ LET b == blocks[id] IN
        /\ l.sz >= b.sz
        /\ fail => (CanFail /\ GrowNeedsBase(chunks, cur, b.addr, b.sz, l.sz, l.al, ma))
@@ -507,7 +518,7 @@ Grow(id, l, zeroed, wrap, fail) ==
 
 \* ---- shrink -------------------------------------------------------------------------------------
 Shrink(id, l, wrap, fail) ==
-    /\ Active /\ Free /\ id \in LiveIds
+    /\ Active /\ Free /\ PlainBlock(id)
     /\ LET b == blocks[id] IN
        /\ l.sz <= b.sz
        /\ fail => (CanFail /\ ShrinkNeedsBase(chunks, cur, b.addr, b.sz, l.sz, l.al, ma, WS(wrap)))
@@ -541,7 +552,7 @@ Reserve(n, fail) ==
 
 \* ---- scopes -------------------------------------------------------------------------------------
 EnterFrame(kind) ==
-    /\ Active /\ Free /\ Depth < MaxDepth
+    /\ Active /\ Free /\ NoVecsHere /\ Depth < MaxDepth
     /\ kind \in {"scope", "guard"}
     /\ frames' = Append(frames, [kind |-> kind, cp |-> Checkpoint, live |-> LiveIds, ma |-> ma, cps |-> cps, alloc0 |-> StatAllocated(chunks, cur)])
     /\ cps' = <<>>
@@ -551,7 +562,7 @@ EnterFrame(kind) ==
 
 \* exit of a scoped() closure / drop of a scope guard; how \in {"return", "unwind"}
 ExitScope(how) ==
-    /\ Active /\ Free /\ Depth > 0
+    /\ Active /\ Free /\ NoVecsHere /\ Depth > 0
     /\ LET f == frames[Depth] IN
        /\ f.kind \in {"scope", "guard"}
        /\ LET r == ResetToCp(chunks, f.cp)
@@ -570,7 +581,7 @@ ExitScope(how) ==
 
 \* BumpScopeGuard::reset : rewind but keep the frame open
 GuardReset ==
-    /\ Active /\ Free /\ Depth > 0
+    /\ Active /\ Free /\ NoVecsHere /\ Depth > 0
     /\ LET f == frames[Depth] IN
        /\ f.kind = "guard"
        /\ LET r == ResetToCp(chunks, f.cp)
@@ -608,7 +619,7 @@ ResetTo(k) ==
 
 \* ---- Bump::reset / reset_to_start (need &mut Bump: only outside every frame) ---------------------
 Reset ==
-    /\ Active /\ Free /\ Depth = 0
+    /\ Active /\ Free /\ NoVecsHere /\ Depth = 0
     /\ IF cur = 0 THEN UNCHANGED <<chunks, cur, base>>
        ELSE LET n == Len(chunks)
                 lastc == chunks[n]
@@ -621,7 +632,7 @@ Reset ==
     /\ Step("reset", [none |-> TRUE], Exp("ok", 0, [kept |-> IF cur = 0 THEN 0 ELSE chunks[Len(chunks)].start]))
 
 ResetToStart ==
-    /\ Active /\ Free /\ Depth = 0
+    /\ Active /\ Free /\ NoVecsHere /\ Depth = 0
     /\ IF cur = 0 THEN UNCHANGED <<chunks, cur>>
        ELSE /\ chunks' = [chunks EXCEPT ![1].pos = ResetPos(chunks[1])] /\ cur' = 1
     /\ blocks' = <<>> /\ cps' = <<>> /\ last' = 0 /\ order' = <<>> /\ parts' = {}
@@ -630,14 +641,14 @@ ResetToStart ==
 
 \* ---- Bump::into_raw / Bump::from_raw (only outside every frame): ownership round trip, nothing changes ------------------
 RawRoundtrip ==
-    /\ Active /\ Free /\ Depth = 0
+    /\ Active /\ Free /\ NoVecsHere /\ Depth = 0
     /\ last' = last
     /\ UNCHANGED <<cfg, base, chunks, cur, ma, frames, blocks, cps, nextId, order, parts, fails, dropped>>
     /\ Step("raw_roundtrip", [none |-> TRUE], Exp("ok", 0, NoX))
 
 \* ---- drop ---------------------------------------------------------------------------------------
 DropArena ==
-    /\ Active /\ Free /\ Depth = 0
+    /\ Active /\ Free /\ NoVecsHere /\ Depth = 0
     /\ dropped' = TRUE
     /\ base' = [base EXCEPT !.grants = [i \in 1..Len(base.grants) |-> [base.grants[i] EXCEPT !.live = FALSE]]]
     /\ blocks' = <<>> /\ cps' = <<>> /\ last' = 0 /\ order' = <<>> /\ parts' = {}
@@ -695,7 +706,7 @@ InPrep == Depth > 0 /\ frames[Depth].kind = "prep"
 \* e = [sz, al] element layout (sz a positive multiple of al); rev = MutBumpVecRev
 \* str = MutBumpString (bytes, forward only): the same state machine as MutBumpVec<u8>
 EnterPrepG(e, rev, c0, fail, str) ==
-    /\ Active /\ Free /\ Depth < MaxDepth /\ e.sz > 0 /\ e.sz % e.al = 0
+    /\ Active /\ Free /\ NoVecsHere /\ Depth < MaxDepth /\ e.sz > 0 /\ e.sz % e.al = 0
     /\ str => (e.sz = 1 /\ ~rev)
     /\ fail => (CanFail /\ c0 > 0 /\ PrepNeedsBase(chunks, cur, c0 * e.sz, e.al))
     /\ LET r == IF c0 = 0 THEN [ok |-> TRUE, chunks |-> chunks, cur |-> cur, base |-> base, lo |-> 0, hi |-> 0]
@@ -753,6 +764,27 @@ PrepReserve(additional, fail) ==
                         Exp(IF r.ok THEN "ok" ELSE "err", 0,
                             [cap |-> cap2, lo |-> r.lo, hi |-> r.hi, len |-> f.len, newchunk |-> Len(r.chunks) > Len(chunks)]))
 
+\* extend_from_slice_copy / push_str of k elements: reserve(k) (amortised), then the elements are copied without a further
+\* capacity check
+PrepExtend(k, fail) ==
+    /\ Active /\ InPrep /\ ~frames[Depth].failed /\ k > 0
+    /\ LET f == frames[Depth]
+           grows == f.cap - f.len < k
+           ncap  == Max(Max(2 * f.cap, f.len + k), MinNonZeroCap(f.esz))
+       IN /\ f.len + k <= 600
+          /\ fail => (CanFail /\ grows /\ PrepNeedsBase(chunks, cur, ncap * f.esz, f.eal))
+          /\ LET r == IF grows THEN DoPrep(chunks, cur, base, ncap * f.esz, f.eal, fail)
+                       ELSE [ok |-> TRUE, chunks |-> chunks, cur |-> cur, base |-> base, lo |-> f.lo, hi |-> f.hi]
+                 cap2 == IF r.ok THEN (r.hi - r.lo) \div f.esz ELSE f.cap
+             IN /\ chunks' = r.chunks /\ cur' = r.cur /\ base' = r.base
+                /\ frames' = [frames EXCEPT ![Depth] = IF r.ok THEN [f EXCEPT !.lo = r.lo, !.hi = r.hi, !.cap = cap2, !.len = f.len + k] ELSE f]
+                /\ fails' = IF fail THEN fails + 1 ELSE fails
+                /\ UNCHANGED <<cfg, ma, blocks, cps, nextId, order, parts, last, dropped>>
+                /\ Step("prep_extend", [k |-> k, fail |-> fail, grows |-> grows, ncap |-> ncap],
+                        Exp(IF r.ok THEN "ok" ELSE "err", 0,
+                            [cap |-> cap2, lo |-> r.lo, hi |-> r.hi, len |-> IF r.ok THEN f.len + k ELSE f.len,
+                             newchunk |-> Len(r.chunks) > Len(chunks)]))
+
 \* into_slice / into_boxed_slice: the elements are moved to the bump side of the prepared range, the position is set
 \* just past them (aligned to the minimum alignment only if the element alignment is smaller)
 PrepCommit ==
@@ -791,7 +823,7 @@ PushN(st, k, esz, eal) ==
                                   !.cap = (r.hi - r.lo) \div esz, !.len = @ + 1], k - 1, esz, eal)
 
 IterMut(e, rev, hint, n) ==
-    /\ Active /\ Free /\ Cardinality(LiveIds) < MaxBlocks /\ e.sz > 0 /\ e.sz % e.al = 0
+    /\ Active /\ Free /\ NoVecsHere /\ Cardinality(LiveIds) < MaxBlocks /\ e.sz > 0 /\ e.sz % e.al = 0
     /\ LET r0 == IF hint = 0 THEN [ok |-> TRUE, chunks |-> chunks, cur |-> cur, base |-> base, lo |-> 0, hi |-> 0]
                  ELSE DoPrep(chunks, cur, base, hint * e.sz, e.al, FALSE)
            st0 == [ok |-> r0.ok, chunks |-> r0.chunks, cur |-> r0.cur, base |-> r0.base, lo |-> r0.lo, hi |-> r0.hi,
@@ -818,6 +850,42 @@ IterMut(e, rev, hint, n) ==
                   Exp("ok", addr, [len |-> st.len, esz |-> e.sz, eal |-> e.al, rev |-> rev, touched |-> touched,
                                    newchunk |-> Len(st.chunks) > Len(chunks)]))
 
+\* ---- one-shot helpers: alloc_fmt_mut / alloc_cstr_fmt_mut -----------------------------------------------------------
+\* = MutBumpString::new_in ; one push_str per written piece (reserve(len of the piece), amortised, then copy) ;
+\*   [cstr: push of the terminating NUL] ; into_boxed_str -- in one call.  pieces = lengths of the written pieces.
+RECURSIVE ExtendN(_, _, _)
+ExtendN(st, pieces, k) ==
+    IF k > Len(pieces) \/ ~st.ok THEN st
+    ELSE LET L == pieces[k] IN
+         IF st.cap - st.len >= L THEN ExtendN([st EXCEPT !.len = @ + L], pieces, k + 1)
+         ELSE LET ncap == Max(Max(2 * st.cap, st.len + L), MinNonZeroCap(1))
+                  r == DoPrep(st.chunks, st.cur, st.base, ncap, 1, FALSE)
+              IN IF ~r.ok THEN [st EXCEPT !.ok = FALSE]
+                 ELSE ExtendN([st EXCEPT !.chunks = r.chunks, !.cur = r.cur, !.base = r.base, !.lo = r.lo, !.hi = r.hi,
+                                         !.cap = r.hi - r.lo, !.len = @ + L], pieces, k + 1)
+
+FmtMut(pieces, cstr) ==
+    /\ Active /\ Free /\ NoVecsHere /\ Cardinality(LiveIds) < MaxBlocks /\ Len(pieces) >= 2
+    /\ LET st0 == [ok |-> TRUE, chunks |-> chunks, cur |-> cur, base |-> base, lo |-> 0, hi |-> 0, cap |-> 0, len |-> 0]
+           st  == ExtendN(st0, IF cstr THEN Append(pieces, 1) ELSE pieces, 1)
+           bytes == st.len
+           touched == st.cap > 0
+           addr == IF ~touched THEN 0 ELSE IF cfg.up THEN st.lo ELSE st.hi - bytes
+           npos == IF cfg.up THEN UpAlign(st.lo + bytes, ma) ELSE DownAlign(st.hi - bytes, ma)
+           made == st.ok /\ touched /\ bytes > 0
+       IN /\ st.ok
+          /\ chunks' = IF touched THEN [st.chunks EXCEPT ![st.cur].pos = npos] ELSE st.chunks
+          /\ cur' = st.cur /\ base' = st.base
+          /\ blocks' = IF made THEN [i \in LiveIds \cup {nextId} |-> IF i = nextId THEN [addr |-> addr, sz |-> bytes, al |-> 1] ELSE blocks[i]]
+                       ELSE blocks
+          /\ nextId' = IF made THEN nextId + 1 ELSE nextId
+          /\ order' = IF made THEN Append(order, nextId) ELSE order
+          /\ parts' = parts \cap DOMAIN blocks'
+          /\ last' = 0
+          /\ UNCHANGED <<cfg, ma, frames, cps, fails, dropped>>
+          /\ Step("fmt_mut", [pieces |-> pieces, cstr |-> cstr, id |-> IF made THEN nextId ELSE 0],
+                  Exp("ok", addr, [len |-> bytes, newchunk |-> Len(st.chunks) > Len(chunks)]))
+
 \* the collection is dropped (or unwound) without being finalised: nothing changes
 PrepDrop(how) ==
     /\ Active /\ InPrep
@@ -827,11 +895,146 @@ PrepDrop(how) ==
     /\ UNCHANGED <<cfg, base, chunks, cur, ma, blocks, nextId, order, parts, fails, dropped>>
     /\ Step("prep_drop", [how |-> how], Exp("ok", 0, NoX))
 
+\* ---- growable vectors: BumpVec<T, A> as a client of the allocator interface ------------------------------------
+\* A = a shared reference to the handle, optionally inside WithoutDealloc / WithoutShrink (`wrap`).  The vector calls
+\* allocate_slice (creation with capacity, first growth), Allocator::grow (amortised growth: max(2 cap, len + additional,
+\* min_non_zero_cap), or exact), shrink_slice (shrink_to_fit, into_boxed_slice) and deallocate (drop).
+\* Several vectors and plain allocations interleave freely; a vector that is not the most recent allocation relocates
+\* when it grows.
+VBlock(addr, cap, e, len, wrap) == [addr |-> addr, sz |-> cap * e.sz, al |-> e.al, esz |-> e.sz, vlen |-> len, wrap |-> wrap]
+VCap(b) == b.sz \div b.esz
+
+VecNew(e, c0, wrap, fail) ==
+    /\ Active /\ Free /\ Cardinality(LiveIds) < MaxBlocks /\ e.sz > 0 /\ e.sz % e.al = 0
+    /\ fail => (CanFail /\ c0 > 0 /\ NeedsBase(chunks, cur, c0 * e.sz, e.al, ma))
+    /\ LET r == IF c0 = 0 THEN [ok |-> TRUE, chunks |-> chunks, cur |-> cur, base |-> base, addr |-> 0]
+                ELSE DoAlloc(chunks, cur, base, c0 * e.sz, e.al, ma, fail)
+       IN /\ chunks' = r.chunks /\ cur' = r.cur /\ base' = r.base
+          /\ blocks' = IF r.ok THEN [i \in LiveIds \cup {nextId} |-> IF i = nextId THEN VBlock(r.addr, c0, e, 0, wrap) ELSE blocks[i]]
+                       ELSE blocks
+          /\ nextId' = IF r.ok THEN nextId + 1 ELSE nextId
+          /\ last' = IF c0 = 0 THEN last ELSE IF r.ok THEN nextId ELSE 0
+          /\ order' = IF r.ok THEN Append(order, nextId) ELSE order
+          /\ parts' = parts
+          /\ fails' = IF fail THEN fails + 1 ELSE fails
+          /\ UNCHANGED <<cfg, ma, frames, cps, dropped>>
+          /\ Step("vec_new", [id |-> IF r.ok THEN nextId ELSE 0, esz |-> e.sz, eal |-> e.al, cap |-> c0, wrap |-> wrap, fail |-> fail],
+                  Exp(IF r.ok THEN "ok" ELSE "err", r.addr, [newchunk |-> Len(r.chunks) > Len(chunks), len |-> 0, cap |-> c0]))
+
+\* how: "push" (k = 1), "extend_copy", "extend_clone", "within_copy", "within_clone" (the first k elements are appended
+\* again), "resize", "reserve" (length unchanged), "reserve_exact" (length unchanged, exact growth)
+VecHows == {"push", "extend_copy", "extend_clone", "within_copy", "within_clone", "resize", "reserve", "reserve_exact"}
+VecExtend(id, k, how, fail) ==
+    /\ Active /\ Free /\ OwnVec(id) /\ k >= 1 /\ how \in VecHows
+    /\ how = "push" => k = 1
+    /\ LET b == blocks[id]
+           cap == VCap(b)
+           grows == k > cap - b.vlen
+           ncap == IF how = "reserve_exact" THEN b.vlen + k ELSE Max(Max(2 * cap, b.vlen + k), MinNonZeroCap(b.esz))
+           keepsLen == how \in {"reserve", "reserve_exact"}
+       IN /\ how \in {"within_copy", "within_clone"} => b.vlen >= k
+          /\ b.vlen + k <= 40
+          /\ fail => /\ CanFail /\ grows
+                     /\ IF b.sz = 0 THEN NeedsBase(chunks, cur, ncap * b.esz, b.al, ma)
+                                    ELSE GrowNeedsBase(chunks, cur, b.addr, b.sz, ncap * b.esz, b.al, ma)
+          /\ LET r == IF ~grows THEN [ok |-> TRUE, chunks |-> chunks, cur |-> cur, base |-> base, addr |-> b.addr]
+                      ELSE IF b.sz = 0 THEN DoAlloc(chunks, cur, base, ncap * b.esz, b.al, ma, fail)    \* no buffer yet: allocate_slice
+                      ELSE DoGrow(chunks, cur, base, b.addr, b.sz, ncap * b.esz, b.al, ma, fail)
+                 nlen == IF r.ok /\ ~keepsLen THEN b.vlen + k ELSE b.vlen
+             IN /\ Assert((grows /\ b.sz > 0 /\ last = id /\ cfg.up /\ b.sz % ma = 0 /\ b.addr % ma = 0 /\ ncap * b.esz <= chunks[cur].hi - b.addr)
+                              => (r.ok /\ r.addr = b.addr),
+                          "C13: a vector that is the most recent allocation did not grow in place")
+                /\ chunks' = r.chunks /\ cur' = r.cur /\ base' = r.base
+                /\ blocks' = IF r.ok THEN [blocks EXCEPT ![id] = [b EXCEPT !.addr = r.addr, !.sz = IF grows THEN ncap * b.esz ELSE b.sz, !.vlen = nlen]]
+                             ELSE blocks
+                /\ last' = IF ~grows THEN last ELSE IF r.ok THEN id ELSE 0
+                /\ order' = IF grows /\ r.ok THEN Append(Without(order, id), id) ELSE order
+                /\ parts' = parts
+                /\ fails' = IF fail THEN fails + 1 ELSE fails
+                /\ frames' = IF grows /\ r.ok THEN ForgetInFrames(id) ELSE frames
+                /\ cps' = IF grows /\ r.ok THEN StripCps(cps, id) ELSE cps
+                /\ UNCHANGED <<cfg, ma, nextId, dropped>>
+                /\ Step("vec_extend", [id |-> id, k |-> k, how |-> how, fail |-> fail, grows |-> grows, ncap |-> ncap,
+                                       osz |-> b.sz, esz |-> b.esz, eal |-> b.al, wrap |-> b.wrap],
+                        Exp(IF r.ok THEN "ok" ELSE "err", IF r.ok THEN r.addr ELSE b.addr,
+                            [waslast |-> last = id, wastop |-> Top(order) = id, inplace |-> grows /\ r.ok /\ r.addr = b.addr,
+                             newchunk |-> Len(r.chunks) > Len(chunks), len |-> nlen,
+                             cap |-> IF grows /\ r.ok THEN ncap ELSE cap]))
+
+\* the shrink of shrink_to_fit / into_boxed_slice: shrink_slice(ptr, cap, len) -- nothing unless the handle shrinks
+\* and the buffer is the most recent allocation; WithoutShrink never shrinks
+VecShrunk(b) == ~WS(b.wrap) /\ cfg.shrinks /\ VCap(b) > b.vlen /\ IsLast(chunks, cur, b.addr, b.sz)
+VecShrinkRes(b) ==
+    IF VecShrunk(b) THEN DoShrink(chunks, cur, base, b.addr, b.sz, b.vlen * b.esz, b.al, ma, FALSE, FALSE)
+    ELSE [ok |-> TRUE, chunks |-> chunks, cur |-> cur, base |-> base, addr |-> b.addr, rsz |-> b.sz]
+
+VecShrink(id) ==
+    /\ Active /\ Free /\ OwnVec(id)
+    /\ LET b == blocks[id]
+           r == VecShrinkRes(b)
+           sh == VecShrunk(b)
+       IN /\ VCap(b) > b.vlen
+          /\ chunks' = r.chunks /\ cur' = r.cur
+          /\ blocks' = [blocks EXCEPT ![id] = [b EXCEPT !.addr = r.addr, !.sz = IF sh THEN b.vlen * b.esz ELSE b.sz]]
+          /\ last' = 0
+          /\ order' = IF sh /\ r.addr # b.addr THEN Append(Without(order, id), id) ELSE order
+          /\ frames' = IF sh THEN ForgetInFrames(id) ELSE frames
+          /\ cps' = IF sh THEN StripCps(cps, id) ELSE cps
+          /\ UNCHANGED <<cfg, base, ma, nextId, parts, fails, dropped>>
+          /\ Step("vec_shrink", [id |-> id, esz |-> b.esz, eal |-> b.al, wrap |-> b.wrap, osz |-> b.sz],
+                  Exp("ok", r.addr, [wastop |-> Top(order) = id, shrunk |-> sh, optout |-> WS(b.wrap) \/ ~cfg.shrinks,
+                                     len |-> b.vlen, cap |-> IF sh THEN b.vlen ELSE VCap(b)]))
+
+\* truncate / pop / clear: no allocator call
+VecTruncate(id, n) ==
+    /\ Active /\ Free /\ OwnVec(id) /\ n < blocks[id].vlen
+    /\ blocks' = [blocks EXCEPT ![id].vlen = n]
+    /\ UNCHANGED <<cfg, base, chunks, cur, ma, frames, cps, nextId, order, parts, last, fails, dropped>>
+    /\ Step("vec_truncate", [id |-> id, n |-> n], Exp("ok", blocks[id].addr, [len |-> n, cap |-> VCap(blocks[id])]))
+
+\* drop: deallocate(ptr, cap * size) unless there is no buffer
+VecDrop(id) ==
+    /\ Active /\ Free /\ OwnVec(id)
+    /\ LET b == blocks[id]
+           reclaims == b.sz > 0 /\ ~WD(b.wrap) /\ cfg.dealloc /\ IsLast(chunks, cur, b.addr, b.sz)
+       IN /\ Assert((b.sz > 0 /\ last = id /\ b.sz % ma = 0 /\ b.addr % ma = 0 /\ cfg.dealloc /\ ~WD(b.wrap)) => reclaims,
+                    "C13: dropping the vector that is the most recent allocation does not reclaim its buffer")
+          /\ Assert(reclaims => Top(order) = id, "C13: dropping a vector that is not the most recent live allocation reclaimed memory")
+          /\ chunks' = IF b.sz > 0 THEN DoDealloc(chunks, cur, b.addr, b.sz, ma, WD(b.wrap)) ELSE chunks
+          /\ blocks' = Restrict(blocks, LiveIds \ {id})
+          /\ last' = IF b.sz > 0 THEN 0 ELSE last
+          /\ order' = Without(order, id)
+          /\ parts' = parts
+          /\ UNCHANGED <<cfg, base, cur, ma, frames, cps, nextId, fails, dropped>>
+          /\ Step("vec_drop", [id |-> id, wrap |-> b.wrap, sz |-> b.sz],
+                  Exp("ok", 0, [waslast |-> last = id, wastop |-> Top(order) = id, reclaim |-> reclaims, optout |-> WD(b.wrap) \/ ~cfg.dealloc,
+                                hadbuf |-> b.sz > 0]))
+
+\* into_boxed_slice / into_slice: shrink_to_fit, then the first len elements are a plain allocation of the caller
+\* (unused capacity that could not be given back stays allocated and unused; an empty vector leaves nothing)
+VecInto(id) ==
+    /\ Active /\ Free /\ OwnVec(id)
+    /\ LET b == blocks[id]
+           r == VecShrinkRes(b)
+           sh == VecShrunk(b)
+           keeps == b.vlen > 0          \* (an empty slice is a dangling pointer: it owns nothing)
+       IN /\ chunks' = r.chunks /\ cur' = r.cur
+          /\ blocks' = IF keeps THEN [blocks EXCEPT ![id] = [addr |-> r.addr, sz |-> b.vlen * b.esz, al |-> b.al]]
+                       ELSE Restrict(blocks, LiveIds \ {id})
+          /\ last' = 0
+          /\ order' = IF ~keeps THEN Without(order, id) ELSE IF sh /\ r.addr # b.addr THEN Append(Without(order, id), id) ELSE order
+          /\ frames' = IF sh THEN ForgetInFrames(id) ELSE frames
+          /\ cps' = IF sh THEN StripCps(cps, id) ELSE cps
+          /\ UNCHANGED <<cfg, base, ma, nextId, parts, fails, dropped>>
+          /\ Step("vec_into", [id |-> id, esz |-> b.esz, eal |-> b.al, wrap |-> b.wrap, osz |-> b.sz, bid |-> IF keeps THEN id ELSE 0],
+                  Exp("ok", IF keeps THEN r.addr ELSE 0,
+                      [wastop |-> Top(order) = id, shrunk |-> sh, optout |-> WS(b.wrap) \/ ~cfg.shrinks, len |-> b.vlen, cap |-> 0]))
+
 \* ---- splitting a block (BumpBox<[T]>::split_off, split_at, FixedBumpVec::split_off ...) -----------------------
 \* No allocator call: the caller from now on treats the two halves as separate allocations ("memory blocks can be
 \* split", BumpAllocatorCore docs); both halves keep the alignment of the element type.
 Split(id, at) ==
-    /\ Active /\ Free /\ id \in LiveIds /\ Cardinality(LiveIds) < MaxBlocks
+    /\ Active /\ Free /\ PlainBlock(id) /\ Cardinality(LiveIds) < MaxBlocks
     /\ LET b == blocks[id] IN
        /\ at > 0 /\ at < b.sz /\ at % b.al = 0
        /\ blocks' = [i \in LiveIds \cup {nextId} |->
@@ -871,7 +1074,7 @@ RunAllocs(chs, c, b, ls, k, firstId, liveset, frs, flag) ==
 \* scoped(|s| W) twice in a row: the second execution of the same workload must not need new memory from the base
 \* allocator (chunks acquired inside the first scope remain available).  2 * (Len(ls) + 2) replayer steps.
 ScopeTwice(ls) ==
-    /\ Active /\ Free /\ Depth < MaxDepth /\ Len(ls) > 0
+    /\ Active /\ Free /\ NoVecsHere /\ Depth < MaxDepth /\ Len(ls) > 0
     /\ LET fr   == [kind |-> "scope", cp |-> Checkpoint, live |-> LiveIds, ma |-> ma, cps |-> cps, alloc0 |-> StatAllocated(chunks, cur)]
            frs  == Append(frames, fr)
            n    == Len(ls)
@@ -934,7 +1137,7 @@ AllocHuge(al) ==
 \* ---- deallocate the most recent allocation and request the same layout again (C13) -------------------
 \* two steps of the replayer: "dealloc" then "alloc" with reuse = TRUE (the replayer reports the freed address)
 Realloc(id, wrap) ==
-    /\ Active /\ Free /\ id \in LiveIds
+    /\ Active /\ Free /\ PlainBlock(id)
     /\ LET b    == blocks[id]
            chs1 == DoDealloc(chunks, cur, b.addr, b.sz, ma, WD(wrap))
            r    == DoAlloc(chs1, cur, base, b.sz, b.al, ma, FALSE)
@@ -975,7 +1178,7 @@ EnterClaim ==
 
 \* guard dropped (normally or by unwinding): the claimed handle continues exactly where the guard stopped
 ExitClaim(how) ==
-    /\ Active /\ Free /\ Depth > 0 /\ frames[Depth].kind = "claim"
+    /\ Active /\ Free /\ NoVecsHere /\ Depth > 0 /\ frames[Depth].kind = "claim"
     /\ frames' = SubSeq(frames, 1, Depth - 1)
     /\ cps' = frames[Depth].cps
     /\ last' = 0
@@ -988,10 +1191,10 @@ ClaimLevels == {i \in 1..Len(frames) : frames[i].kind = "claim"}
 \* op \in {"alloc", "reserve", "grow", "dealloc", "shrink", "stats", "claim"}
 ClaimedOp(lvl, op, id, l) ==
     /\ Active /\ Free /\ lvl \in ClaimLevels
-    /\ op \in {"grow", "dealloc", "shrink"} => id \in LiveIds
+    /\ op \in {"grow", "dealloc", "shrink"} => PlainBlock(id)
     /\ op = "grow" => l.sz >= blocks[id].sz
     /\ op = "shrink" => l.sz <= blocks[id].sz
-    /\ LET b == IF id \in LiveIds THEN blocks[id] ELSE [addr |-> 0, sz |-> 0, al |-> 1]
+    /\ LET b == IF PlainBlock(id) THEN blocks[id] ELSE [addr |-> 0, sz |-> 0, al |-> 1]
            \* shrink through a claimed handle: the pointer is never "last" for the dummy chunk: aligned => unchanged
            \* (old size returned), unaligned => a fresh allocation, which fails
            shrinkOk == op = "shrink" /\ b.addr % l.al = 0
@@ -1010,7 +1213,7 @@ ClaimedOp(lvl, op, id, l) ==
 
 \* ---- aligned / scoped_aligned ---------------------------------------------------------------------------
 EnterAligned(n, scoped) ==
-    /\ Active /\ Free /\ Depth < MaxDepth /\ n \in {1, 2, 4, 8, 16} /\ n # ma
+    /\ Active /\ Free /\ NoVecsHere /\ Depth < MaxDepth /\ n \in {1, 2, 4, 8, 16} /\ n # ma
     /\ frames' = Append(frames, [kind |-> IF scoped THEN "saligned" ELSE "aligned", cp |-> Checkpoint, live |-> LiveIds,
                                   ma |-> ma, cps |-> cps, alloc0 |-> StatAllocated(chunks, cur)])
     /\ cps' = <<>>
@@ -1024,7 +1227,7 @@ EnterAligned(n, scoped) ==
 \* borrow_mut_with_settings::<NewS>() with a higher minimum alignment (lowering is rejected at compile time): the position
 \* is aligned like for aligned::<N>; nothing is undone when the borrow ends
 EnterBmws(n) ==
-    /\ Active /\ Free /\ Depth < MaxDepth /\ n \in {2, 4, 8, 16} /\ n > ma
+    /\ Active /\ Free /\ NoVecsHere /\ Depth < MaxDepth /\ n \in {2, 4, 8, 16} /\ n > ma
     /\ frames' = Append(frames, [kind |-> "bmws", cp |-> Checkpoint, live |-> LiveIds, ma |-> ma, cps |-> cps,
                                   alloc0 |-> StatAllocated(chunks, cur)])
     /\ cps' = <<>>
@@ -1038,7 +1241,7 @@ EnterBmws(n) ==
 \* Requires an allocated arena when NewS is guaranteed-allocated: otherwise it panics and the Bump, which was moved into
 \* the call, is dropped by the unwinding.  Raising the alignment aligns the position, lowering needs nothing.
 WithSettings(n, g) ==
-    /\ Active /\ Free /\ Depth = 0 /\ n \in {1, 2, 4, 8, 16}
+    /\ Active /\ Free /\ NoVecsHere /\ Depth = 0 /\ n \in {1, 2, 4, 8, 16}
     /\ (n # cfg.ma \/ g # cfg.ga)
     /\ IF g /\ cur = 0
        THEN /\ dropped' = TRUE
@@ -1055,7 +1258,7 @@ WithSettings(n, g) ==
             /\ Step("with_settings", [ma |-> n, ga |-> g], Exp("ok", 0, NoX))
 
 ExitAligned(how) ==
-    /\ Active /\ Free /\ Depth > 0
+    /\ Active /\ Free /\ NoVecsHere /\ Depth > 0
     /\ LET f == frames[Depth] IN
        /\ f.kind \in {"aligned", "saligned", "bmws"}
        /\ IF f.kind = "saligned"
@@ -1123,7 +1326,7 @@ SortedIds(S) == IF S = {} THEN <<>> ELSE LET m == CHOOSE x \in S : \A y \in S : 
 ProjModel ==
     [chunks |-> chunks, cur |-> cur,
      grants |-> base.grants,
-     blocks |-> LET ids == SortedIds(LiveIds)
+     blocks |-> LET ids == SortedIds({i \in LiveIds : blocks[i].addr # 0})     \* (a vector without buffer owns no memory)
                 IN [i \in 1..Len(ids) |-> [id |-> ids[i], addr |-> blocks[ids[i]].addr, sz |-> blocks[ids[i]].sz, al |-> blocks[ids[i]].al]],
      ma |-> ma, up |-> cfg.up]
 
